@@ -23,7 +23,7 @@ Ops(st) ==
   \cup {[m |-> m, args |-> <<i>>] : m \in {"remove", "get", "get_mut", "copy", "yank", "shove", "pop_vec", "copy_vec"}, i \in Pos(st)}
   \cup {[m |-> m, args |-> <<x>>] : m \in {"last_eq", "push", "push_front"}, x \in Elems}
   \cup {[m |-> m, args |-> <<i, x>>] : m \in {"equal_at", "replace"}, i \in Pos(st), x \in Elems}
-  \cup {[m |-> m, args |-> <<v>>] : m \in {"push_vec", "from_vec"}, v \in SeqsUpTo(Elems, 2)}
+  \cup {[m |-> m, args |-> <<v>>] : m \in {"push_vec", "from_vec", "clone_from"}, v \in SeqsUpTo(Elems, 2)}
 
 Init == phase = "pre" /\ s \in SeqsUpTo(Elems, MaxLen) /\ op \in Ops(s)
 Next == phase = "pre" /\ phase' = "post" /\ s' = StackOp(Elem, op.m, op.args, s).post /\ UNCHANGED op
